@@ -165,7 +165,7 @@ def run_real(scen, workdir, rng=None):
             obs['marked'] = []
 
             def rp(pass_):
-                obs['marked'].append(('P', keyidx.get(repr(pass_), -1), len(obs['log'])))
+                obs['marked'].append(('P', keyidx.get(repr(pass_), -1), len(obs['log']), sum(os.path.getsize(f) for f in files)))
                 return orp(pass_)
             tm.run_pass = rp
             import signal
